@@ -58,11 +58,41 @@ pub fn gen(rng: &mut Rng, _tier: Tier) -> Value {
         let b = if shared_inputs { base_in } else { r.below(1 << 15) as u16 };
         let stride = 1 + r.usize(3) as u16;
         let dup = r.chance(1, 3);
+        let scattered = r.chance(1, 3);
         let mut t: Vec<(u16, u16)> = Vec::new();
         for i in 0..size {
-            let inp = b.wrapping_add(i as u16 * stride);
+            // inputs: an arithmetic progression, or scattered distinct 16-bit values
+            let mut inp = b.wrapping_add(i as u16 * stride);
+            if scattered {
+                inp = r.below(1 << 16) as u16;
+                while t.iter().any(|(a, _)| *a == inp) {
+                    inp = inp.wrapping_add(1);
+                }
+            }
             let out = if dup && i > 0 && r.chance(1, 2) { t[r.usize(t.len())].1 } else { r.below(1 << 16) as u16 };
             t.push((inp, out));
+        }
+        // arbitrary order of the entries
+        if r.chance(1, 2) {
+            r.shuffle(&mut t);
+        }
+        // two different tables of which one is a proper prefix of the other
+        if let Some(prev) = tables.last() {
+            if prev.len() >= 2 && r.chance(1, 4) {
+                if r.chance(1, 2) {
+                    t = prev[..r.range(1, prev.len() - 1)].to_vec();
+                } else {
+                    let mut e = prev.clone();
+                    for (a, bb) in t.iter() {
+                        if !e.iter().any(|(x, _)| x == a) && e.len() < prev.len() + lut_slots {
+                            e.push((*a, *bb));
+                        }
+                    }
+                    if e.len() > prev.len() {
+                        t = e;
+                    }
+                }
+            }
         }
         tables.push(t);
     }
@@ -73,7 +103,10 @@ pub fn gen(rng: &mut Rng, _tier: Tier) -> Value {
             tables[i][l - 1].1 ^= 1;
         }
     }
-    let mut inputs = vec![Val::F(r.felt_biased())];
+    // input 1 is an input of some table and is looked up directly (not through a constant)
+    let via_t = r.usize(nt);
+    let via_entry = tables[via_t][r.usize(tables[via_t].len())];
+    let mut inputs = vec![Val::F(r.felt_biased()), Val::F(via_entry.0 as u64)];
     let mut prog = Program { inputs: inputs.clone(), ops: vec![], tables: tables.clone(), outputs: vec![] };
     let mut vals = inputs.clone();
     let mut push = |prog: &mut Program, vals: &mut Vec<Val>, op: Op| {
@@ -103,6 +136,8 @@ pub fn gen(rng: &mut Rng, _tier: Tier) -> Value {
         }
         prog.outputs.push(vals.len() - 1);
     }
+    push(&mut prog, &mut vals, Op::Lookup(via_t, 1));
+    prog.outputs.push(vals.len() - 1);
     if r.chance(1, 2) {
         let a = vals.len() - 1;
         push(&mut prog, &mut vals, Op::Add(a, 0));
@@ -261,6 +296,25 @@ fn exec_c<C: GenericConfig<D, F = F>>(case: &Case, rep: &mut Report) {
                 plan.push(("strategy.first_lookup_row_left_out_of_running_sum".into(), PFault { cell: Some((tidx(lw.last_lu_gate, LookupGate::wire_ith_looking_out(0)), "plus1".into(), 0)), shift_lookup_rows: Some(t), ..Default::default() }));
             }
         }
+        // the honest prover on another assignment of the looked-up input: inputs that only another table holds, a value
+        // no table holds, another entry of the same table (must then carry that entry's output)
+        for op in &case.st.prog.ops {
+            if let Op::Lookup(t, x) = op {
+                if *x < case.st.prog.inputs.len() {
+                    let mine = &case.st.prog.tables[*t];
+                    let foreign: Vec<u64> = case.st.prog.tables.iter().enumerate().filter(|(k, _)| k != t).flat_map(|(_, tb)| tb.iter().map(|(a, _)| *a as u64)).filter(|a| !mine.iter().any(|(m, _)| *m as u64 == *a)).collect();
+                    for v in foreign.iter().take(3) {
+                        plan.push(("input.entry_of_another_table".into(), PFault { input: Some((*x, *v)), ..Default::default() }));
+                    }
+                    let mut v = r.below(1 << 16);
+                    while mine.iter().any(|(m, _)| *m as u64 == v) {
+                        v += 1;
+                    }
+                    plan.push(("input.outside_every_table".into(), PFault { input: Some((*x, v)), ..Default::default() }));
+                    plan.push(("input.other_entry_of_the_table".into(), PFault { input: Some((*x, mine[r.usize(mine.len())].0 as u64)), ..Default::default() }));
+                }
+            }
+        }
         if cfg!(feature = "hooks") {
             plan.push(("H1".into(), PFault { knobs: Knobs { z_init: Some(0), ..Default::default() }, ..Default::default() }));
             for j in 0..common.config.num_challenges {
@@ -270,6 +324,29 @@ fn exec_c<C: GenericConfig<D, F = F>>(case: &Case, rep: &mut Report) {
     }
     let degree_bits = common.degree_bits();
     for (name, f) in &plan {
+        if let Some((i, nv)) = f.input {
+            let sig = base_sig ^ hash_value(&serde_json::to_value(f).unwrap());
+            match crate::c02::run_input_fault::<C>(&built, &ctx, &case.st, &case.sched, &case.entropy, i, nv) {
+                crate::c02::InputVerdict::Skip => {}
+                crate::c02::InputVerdict::Unsat { msg, accepted, sat } => {
+                    rep.fault(name);
+                    rep.case(sig, true);
+                    if accepted {
+                        viol(rep, case, f, "accepted_proof_for_a_lookup_outside_the_table", "reference", format!("input {i} := {nv}: the reference evaluator says '{msg}', the statement checker says {sat}"));
+                    }
+                }
+                crate::c02::InputVerdict::Sat { differs, accepted } => {
+                    rep.fault(name);
+                    rep.case(sig, true);
+                    if !accepted {
+                        viol(rep, case, f, "lookup_of_a_table_entry_not_provable", "reference", format!("input {i} := {nv} is an input of the table"));
+                    } else if differs {
+                        viol(rep, case, f, "accepted_lookup_outputs_differ_from_table", "reference", format!("input {i} := {nv}"));
+                    }
+                }
+            }
+            continue;
+        }
         let v = match f.shift_lookup_rows {
             None => run_fault(&built, &ctx, &case.st, &case.sched, &case.entropy, f),
             Some(t) => {
